@@ -127,6 +127,13 @@ func runMutant(repo, verif string, m Mutant, bl *Baseline) (bool, string) {
 		if o.Status != "discharged" && ((inBase && be.Status == "discharged") || (!inBase && o.Kind != "safety")) {
 			return true, fmt.Sprintf("%s -> %s", o.Name, o.Status)
 		}
+		// outside the claim: counts only when the stored scenario fails on the mutated code
+		if o.Status != "discharged" && hasReplay(c, o) {
+			var rb strings.Builder
+			if runReplay(c, o, &rb) {
+				return true, fmt.Sprintf("%s -> %s, replay confirmed on the mutated code", o.Name, o.Status)
+			}
+		}
 	}
 	return false, "every obligation matching " + m.Expect + " still discharges"
 }
